@@ -430,7 +430,28 @@ def rule_weight_sites(F, ev, R, config, rule="R-WEIGHT-SITES"):
                 okw = False
                 msg = "weight multiplication in an unexpected place (undetermined)"
             # applied exactly once: the multiplied matrix carries no weight factor itself
-            twice = contains(M, lambda x: x[0] == "call" and x[1] == "std::ops::Mul::mul" and x[2] in (ADT_WEIGHTS, ADT_DIAG))
+            def row_weighted(x, depth=0):
+                """the ROWS of x carry a weight factor: x is `W·…`, or a product whose left factor is (the rows of `A·B`
+                are combinations of the rows of A — the coefficients `solve(svd(W·Φ), Y_w)` as a RIGHT factor do not
+                make `Φ·C` a weighted quantity), or a sum / difference / copy / column selection of such a matrix"""
+                x0 = x
+                while x0[0] in ("mutated", "payload", "opt"):
+                    x0 = x0[1]
+                if x0[0] != "call" or depth > 8:
+                    return False
+                if x0[1] == "std::ops::Mul::mul":
+                    if x0[2] in (ADT_WEIGHTS, ADT_DIAG):
+                        return True
+                    return row_weighted(x0[3][0], depth + 1) if x0[3] else False
+                if x0[1] in ("std::ops::Sub::sub", "std::ops::Add::add", "std::ops::Neg::neg"):
+                    return any(row_weighted(a, depth + 1) for a in x0[3])
+                if x0[1].rsplit("::", 1)[-1] in ("clone", "clone_owned", "into_owned", "column", "columns", "rows", "as_view", "reshape_generic") and x0[3]:
+                    return row_weighted(x0[3][0], depth + 1)
+                if x0[1].rsplit("::", 1)[-1] in ("transpose", "tr_mul"):
+                    # rows and columns change places: stay on the safe side
+                    return contains(x0, lambda y: y[0] == "call" and y[1] == "std::ops::Mul::mul" and y[2] in (ADT_WEIGHTS, ADT_DIAG))
+                return False
+            twice = row_weighted(M)
             if im.get("self_adt") == ADT_PROBLEM:
                 # the stored data are already weighted: they must not be weighted again (as the operand
                 # itself or as a factor/summand of it; occurrences inside index or dimension terms do not count)
@@ -440,7 +461,9 @@ def rule_weight_sites(F, ev, R, config, rule="R-WEIGHT-SITES"):
                         x0 = x0[1]
                     if x0 == ("field", me, pr["data"]):
                         return True
-                    if depth < 6 and x0[0] == "call" and x0[1] in ("std::ops::Mul::mul", "std::ops::Sub::sub", "std::ops::Add::add", "std::ops::Neg::neg") or \
+                    if depth < 6 and x0[0] == "call" and x0[1] == "std::ops::Mul::mul" and x0[3]:
+                        return weighted_operand(x0[3][0], depth + 1)      # rows come from the left factor
+                    if depth < 6 and x0[0] == "call" and x0[1] in ("std::ops::Sub::sub", "std::ops::Add::add", "std::ops::Neg::neg") or \
                             (x0[0] == "call" and x0[1].rsplit("::", 1)[-1] in ("transpose", "clone", "column", "rows", "columns")):
                         return any(weighted_operand(a, depth + 1) for a in x0[3])
                     return False
